@@ -86,17 +86,44 @@ func (w *WaitGroup) Wait() {
 	mc.Simple("wgwait", func() bool { return w.n == 0 }, func() { mc.Ordered(&w.o, 7, true) })
 }
 
+// Once: done only counts within the execution that set it, so a package-level Once behaves in every execution as in
+// a fresh process (executions must not influence each other).
 type Once struct {
-	done bool
+	done uint64 // 1 + the epoch in which f ran
 	m    Mutex
 }
 
 func (o *Once) Do(f func()) {
 	o.m.Lock()
 	defer o.m.Unlock()
-	if !o.done {
-		defer func() { o.done = true }()
+	if o.done != mc.Epoch()+1 {
+		defer func() { o.done = mc.Epoch() + 1 }()
 		f()
+	}
+}
+
+// OnceFunc, OnceValue and OnceValues mirror the sync helpers on top of Once.
+func OnceFunc(f func()) func() {
+	var o Once
+	return func() { o.Do(f) }
+}
+
+func OnceValue[T any](f func() T) func() T {
+	var o Once
+	var v T
+	return func() T {
+		o.Do(func() { v = f() })
+		return v
+	}
+}
+
+func OnceValues[T1, T2 any](f func() (T1, T2)) func() (T1, T2) {
+	var o Once
+	var v1 T1
+	var v2 T2
+	return func() (T1, T2) {
+		o.Do(func() { v1, v2 = f() })
+		return v1, v2
 	}
 }
 
@@ -106,14 +133,14 @@ type Pool struct {
 	New   func() any
 	items []any
 	o     mc.Obj
-	reg   bool
+	ep    uint64
 }
 
 // a real sync.Pool may drop its contents at any time; the stand-in drops them between executions
 func (p *Pool) register() {
-	if !p.reg {
-		p.reg = true
-		mc.OnRun(func() { p.items = nil })
+	if p.ep != mc.Epoch() {
+		p.ep = mc.Epoch()
+		p.items = nil
 	}
 }
 
